@@ -28,7 +28,9 @@ P["C01"] = dict(
         "invertible operator depend on the same set of parameters",
              "R-ARG-SELECTION: at every call of a crate function no argument is a caller variable named like another same-typed parameter of the callee (exchanged arguments of equal type, e.g. qs(e, sinphi), chase(&locals, globals, key))",
              "R-STACK-DUAL: the inverse of every stack sub-command is the documented dual (roll <-> unroll with m-n, push <-> pop with reversed arguments, swap/flip self-dual)",
-             "R-PARITY: (parity abstract interpretation) under reflection in the equator the cart operator's inverse and Ellipsoid::geographic give longitude and height even and latitude odd in Z on every branch; Ellipsoid::cartesian gives X, Y even and Z odd in the latitude; the auxiliary latitudes are odd, the radii of curvature and the normal gravity formulas even in the latitude"],
+             "R-PARITY: (parity abstract interpretation) under reflection in the equator the cart operator's inverse and Ellipsoid::geographic give longitude and height even and latitude odd in Z on every branch; Ellipsoid::cartesian gives X, Y even and Z odd in the latitude; the auxiliary latitudes are odd, the radii of curvature and the normal gravity formulas even in the latitude",
+             "R-LAT-ARG-KIND: what the operators hand to an auxiliary-latitude conversion is an angle (a coordinate, a parameter, the result of an inverse trigonometric function, or a sum / scalar multiple of such), never a bare ratio such as the sine of the authalic latitude",
+             "R-MODE-FLAG-USED: every mode or aspect flag a constructor itself records (laea north_polar/south_polar/oblique, helmert rotated/dynamic/fixed_time, null_grid ...) is consulted by the operator: a detected mode is a handled mode"],
     not_decided=["numerical round-trip accuracy of any operator", "domain limits", "grid based shifts"],
     level="Decides structural clauses that are necessary conditions of 'inverse undoes forward' (see decides); does "
           "not decide the numerical round-trip accuracy of any operator.",
@@ -42,7 +44,9 @@ P["C05"] = dict(
              "R-SIGN-SLICE: laea's polar aspect selection depends on the sign of lat_0 (all aspects reachable)",
              "R-DIMENSION: (units-of-measure inference) every addition, subtraction and comparison in the ellipsoid geometry and in the operators with documented tuple conventions joins quantities of one physical dimension, transcendental functions get dimensionless arguments, and written tuple elements have the documented dimension (length / angle / time)",
              "R-ARG-SELECTION: at every call of a crate function no argument is a caller variable named like another same-typed parameter of the callee (exchanged arguments of equal type, e.g. qs(e, sinphi), chase(&locals, globals, key))",
-             "R-PARAM-MIRROR: forward and inverse of each projection depend on the same parameters (same ellipsoid in both directions)"],
+             "R-PARAM-MIRROR: forward and inverse of each projection depend on the same parameters (same ellipsoid in both directions)",
+             "R-LAT-ARG-KIND: what the operators hand to an auxiliary-latitude conversion is an angle (a coordinate, a parameter, the result of an inverse trigonometric function, or a sum / scalar multiple of such), never a bare ratio such as the sine of the authalic latitude",
+             "R-MODE-FLAG-USED: every mode or aspect flag a constructor itself records (laea north_polar/south_polar/oblique, helmert rotated/dynamic/fixed_time, null_grid ...) is consulted by the operator: a detected mode is a handled mode"],
     not_decided=["conformality, equal-area and true-scale identities (differential statements over R^2)"],
     level="Decides two necessary table identities of the transverse Mercator geometry; the differential geometry "
           "of the projections is not decidable statically and is not claimed.",
@@ -303,7 +307,8 @@ P["C13"] = dict(
              "R-PARAM-EFFECT: (program slice) every parameter an operator declares reaches the values it writes, directly "
              "or through a key its constructor derives from it - no declared parameter is silently ignored",
              "R-DIMENSION: (units-of-measure inference) every addition, subtraction and comparison in the ellipsoid geometry and in the operators with documented tuple conventions joins quantities of one physical dimension, transcendental functions get dimensionless arguments, and written tuple elements have the documented dimension (length / angle / time)",
-             "R-KEY-DECLARED: every parameter an operator reads is declared in its gamut under the documented name (utm accepts ellps, ...)"],
+             "R-KEY-DECLARED: every parameter an operator reads is declared in its gamut under the documented name (utm accepts ellps, ...)",
+             "R-MODE-FLAG-USED: every mode or aspect flag a constructor itself records (laea north_polar/south_polar/oblique, helmert rotated/dynamic/fixed_time, null_grid ...) is consulted by the operator: a detected mode is a handled mode"],
     not_decided=["k_0 linearity", "lat_ts == corresponding k_0", "1SP == 2SP lcc", "merc == webmerc on a sphere",
                  "scaling with the semi-major axis"],
     level="Decides the unit, false-origin, UTM-constant and alias conventions structurally on all paths; the "
